@@ -40,11 +40,15 @@ def environments(tier):
         for k in range(16):
             e = dict(LOCALES[k % len(LOCALES)])
             e["PYTHONHASHSEED"] = HASHSEEDS[k % len(HASHSEEDS)] if k < 8 else HASHSEEDS[(k * 3 + 1) % len(HASHSEEDS)]
+            if k % 4 == 3:
+                e["PYOPT"] = ["O", "OO", "env", "O"][k // 4]     # assert statements compiled out
             combos.append(e)
     else:
         for hs, lc in itertools.product(HASHSEEDS, LOCALES):
             e = dict(lc)
             e["PYTHONHASHSEED"] = hs
+            if (len(combos) % 5) == 4:
+                e["PYOPT"] = ["O", "OO", "env"][len(combos) % 3]
             combos.append(e)
     return combos
 
@@ -125,8 +129,12 @@ def run_shard(desc, acc):
             for k in ("LC_ALL", "PYTHONUTF8", "PYTHONIOENCODING", "LANG", "LC_CTYPE"):
                 cenv.pop(k, None)
             cenv.update(e)
+            flags = ["-O"] if e.get("PYOPT") == "O" else ["-OO"] if e.get("PYOPT") == "OO" else []
+            if e.get("PYOPT") == "env":
+                cenv["PYTHONOPTIMIZE"] = "1"
+            cenv.pop("PYOPT", None)
             try:
-                p = subprocess.run([env.PYTHON, "-X", "dev", "-X", "warn_default_encoding", "-m", "vf.c12child", cf, of],
+                p = subprocess.run([env.PYTHON] + flags + ["-X", "dev", "-X", "warn_default_encoding", "-m", "vf.c12child", cf, of],
                                    cwd=env.VERIF, env=cenv, timeout=3000, stdout=subprocess.PIPE, stderr=subprocess.PIPE)
             except subprocess.TimeoutExpired:
                 acc.inconc(f"child timed out in env {e}")
@@ -142,7 +150,7 @@ def run_shard(desc, acc):
                 reach._counts[rk] += rv
             acc.count("child-processes")
             acc.count(f"env:hashseed={envd['PYTHONHASHSEED']},LC_ALL={envd['LC_ALL']},utf8={envd['utf8_mode']},"
-                      f"ioenc={envd['PYTHONIOENCODING']},preferred={envd['preferred_encoding']}")
+                      f"ioenc={envd['PYTHONIOENCODING']},preferred={envd['preferred_encoding']},optimize={envd.get('optimize')}")
             bykind = {c["digest"]: c for c in cases}
             for rec in out["results"]:
                 case = bykind[rec["model"]]
